@@ -34,7 +34,7 @@ Qed.
 
 Theorem rinv_step s o : sinv s -> wf_step s o -> rinv s -> rinv (fst (step s o)).
 Proof.
-  intros [UO IL] W R. destruct o as [id key sf deny t0|r payload pc h|r src size|r key|r mh|r io|r payload pc h|r]; cbn [step].
+  intros [UO IL] W R. destruct o as [id key sf deny t0|r payload pc h|r src size|r key|r mh|r io|r payload pc h|r|osrc okeep okey osf odeny]; cbn [step].
   - intros r l H. cbn [fst s_logs] in H.
     destruct (Nat.lt_ge_cases r (length (s_logs s))) as [Hl|Hl].
     + rewrite nth_error_app1 in H by assumption. eauto.
@@ -75,6 +75,7 @@ Proof.
     intros r' l' H. cbn [s_logs] in H. rewrite nth_error_set_nth, L in H. destruct (Nat.eqb r r'); [|eauto].
     injection H as <-. exact (R r l L).
   - exact R.
+  - destruct W.
 Qed.
 
 Theorem rinv_run ops : wf ops -> rinv (run ops).
@@ -163,7 +164,7 @@ Qed.
 
 Theorem stinv_step s o : sinv s -> wf_step s o -> rinv s -> stinv s -> stinv (fst (step s o)).
 Proof.
-  intros [UO IL] W R [SO SH]. destruct o as [id key sf deny t0|r payload pc h|r src size|r key|r mh|r io|r payload pc h|r]; cbn [step].
+  intros [UO IL] W R [SO SH]. destruct o as [id key sf deny t0|r payload pc h|r src size|r key|r mh|r io|r payload pc h|r|osrc okeep okey osf odeny]; cbn [step].
   - split; [exact SO|]. cbn [fst s_logs s_store]. intros r l H.
     destruct (Nat.lt_ge_cases r (length (s_logs s))) as [Hl|Hl].
     + rewrite nth_error_app1 in H by assumption. eauto.
@@ -211,6 +212,7 @@ Proof.
     split; [exact SO|]. cbn [s_logs s_store]. intros r' l' H. rewrite nth_error_set_nth, L in H.
     destruct (Nat.eqb r r'); [injection H as <-; exact (SH r l L)|eauto].
   - split; auto.
+  - destruct W.
 Qed.
 
 Theorem stinv_run ops : wf ops -> stinv (run ops).
@@ -231,7 +233,7 @@ Proof. unfold add_block. destruct (existsb (fun b => N.eqb (fst b) h) st); [exis
 Lemma step_store_extends s o : exists suf, s_store (fst (step s o)) = s_store s ++ suf.
 Proof.
   assert (Same : exists suf, s_store s = s_store s ++ suf) by (exists []; now rewrite app_nil_r).
-  destruct o as [id key sf deny t0|r payload pc h|r src size|r key|r mh|r io|r payload pc h|r]; cbn [step]; cbn [fst s_store]; auto.
+  destruct o as [id key sf deny t0|r payload pc h|r src size|r key|r mh|r io|r payload pc h|r|osrc okeep okey osf odeny]; cbn [step]; cbn [fst s_store]; auto.
   - destruct (nth_error (s_logs s) r) as [l|]; [|exact Same].
     destruct (append l payload pc h) as [l' [e|[]|]]; cbn [fst s_store]; auto using add_block_extends.
     destruct (append_entry l payload pc h); cbn [fst s_store]; auto using add_block_extends.
@@ -243,4 +245,5 @@ Proof.
     destruct (olen (l_heads l) =? 0); cbn [fst s_store]; auto using add_block_extends.
   - destruct (nth_error (s_logs s) r) as [l|]; [|exact Same]. destruct (iterator l io) as [[es c]| |]; exact Same.
   - destruct (nth_error (s_logs s) r) as [l|]; [|exact Same]. destruct (append_entry l payload pc h); exact Same.
+  - destruct (nth_error (s_logs s) osrc) as [l|]; exact Same.
 Qed.
